@@ -230,11 +230,14 @@ def main():
         body = bytes([0x5A]) * n
         for t in ("B", "A"):
             enc = K.own_header(K.CODE[t], n, 3) + body
-            obj = K.fresh_var(("any",))
-            pos = obj.decode(enc, 0)
-            val = obj.value.value
-            ok = pos == len(enc) and (bytes(val) == body if t == "B" else val == body.decode("latin-1"))
-            if not ok or obj.encode() != enc:
+            try:
+                obj = K.fresh_var(("any",))
+                pos = obj.decode(enc, 0)
+                val = obj.value.value
+                ok = pos == len(enc) and (bytes(val) == body if t == "B" else val == body.decode("latin-1")) and obj.encode() == enc
+            except Exception:  # noqa: BLE001
+                ok = False
+            if not ok:
                 res.violate("decode-wrong-value", f"{t} with 16777215 bytes does not decode / re-encode", {"kind": "big", "type": t, "n": n})
             res.count(("big", t, n), sample={"op": "decode long", "type": t, "bytes": n})
 
